@@ -16,6 +16,53 @@ import (
 func (g *Gen) call(in *ssa.Call, cc *ssa.CallCommon) {
 	res := g.doCall(cc, in.Pos(), in.Name())
 	g.bindResults(in, res)
+	g.afterCallClauses(in, cc)
+}
+
+// afterCallClauses: `at call L setflag F expr` — the path flag F takes the value of expr, evaluated
+// right after the call with its results (result, resultN) and arguments (argN) in scope.
+func (g *Gen) afterCallClauses(in *ssa.Call, cc *ssa.CallCommon) {
+	if g.fc == nil || g.inlineDepth != 0 {
+		return
+	}
+	if _, isB := cc.Value.(*ssa.Builtin); isB {
+		return
+	}
+	label := g.c.calleeLabel(cc)
+	n := g.callOrdinal[cc]
+	for _, cl := range g.fc.Clauses {
+		if cl.Kind != "setflag" || (cl.Call != label && cl.Call != fmtf("%s#%d", label, n)) {
+			continue
+		}
+		key := "L:pathflag." + cl.Label
+		if _, ok := g.keySort[key]; !ok {
+			g.errorf("%s: setflag of undeclared pathflag %s", g.fnLabel(), cl.Label)
+			continue
+		}
+		g.usedAxioms[fmtf("clausehit:%p", cl)] = true
+		env := g.pointEnv(g.st, g.cur, nil)
+		off := 0
+		if cc.IsInvoke() {
+			env.vars["arg0"] = TV{g.val(cc.Value), cc.Value.Type()}
+			off = 1
+		}
+		for i, a := range cc.Args {
+			env.vars[fmtf("arg%d", i+off)] = TV{g.val(a), a.Type()}
+		}
+		if tup, ok := in.Type().(*types.Tuple); ok {
+			for i, t := range g.tuples[in] {
+				env.results = append(env.results, TV{t, tup.At(i).Type()})
+			}
+		} else {
+			env.results = []TV{{g.val(in), in.Type()}}
+		}
+		t, err := env.evalBool(cl.E)
+		if err != nil {
+			g.errorf("%s: setflag %s at call %s: %v", g.fnLabel(), cl.Label, label, err)
+			continue
+		}
+		g.set(key, t)
+	}
 }
 
 func (g *Gen) bindResults(in ssa.Value, res []string) {
@@ -147,6 +194,16 @@ func (g *Gen) doCall(cc *ssa.CallCommon, pos token.Pos, name string) []string {
 		return g.builtin(b, cc, pos, name)
 	}
 	label := g.c.calleeLabel(cc)
+	if label == "dynamic" {
+		// a call through a local variable holding a function value: name it after the variable
+		for nm, refs := range g.names {
+			for _, r := range refs {
+				if r.val == cc.Value && !r.isAddr {
+					label = "local:" + nm
+				}
+			}
+		}
+	}
 	n := g.callOrdinal[cc]
 	if n == 0 {
 		g.callOrd[label]++
@@ -653,6 +710,7 @@ func (g *Gen) checkPost(res []string, pos token.Pos) {
 			g.errorf("%s: ensures #%d: %v", g.fnLabel(), k, err)
 			continue
 		}
+		g.usedAxioms[fmtf("posthit:%p", cl)] = true
 		name := fmtf("%s/post#%d@ret%d", g.fnLabel(), k, rn)
 		if cl.Label != "" {
 			name = fmtf("%s/post#%s@ret%d", g.fnLabel(), cl.Label, rn)
